@@ -802,10 +802,13 @@ impl RenderContext {
             return Err(Error::IncompleteFrame);
         }
 
-        let lf_frame_idx = self.lf_frame[header.lf_level as usize];
-        if header.flags.use_lf_frame() {
+        let lf_frame_idx = if header.flags.use_lf_frame() {
+            let lf_frame_idx = self.lf_frame[header.lf_level as usize];
             self.spawn_renderer(lf_frame_idx);
-        }
+            lf_frame_idx
+        } else {
+            usize::MAX
+        };
         for idx in self.reference {
             if idx != usize::MAX {
                 self.spawn_renderer(idx);
